@@ -33,6 +33,13 @@ def requests_for(r, bolt11, tier, inv_pre=0):
             for fwd, scid in ((5, None), (None, None), (5, "1x2x3")):
                 if tier != "thorough" and (fwd, scid) != (5, None) and a not in (None, tu64(1000000)): continue
                 reqs.append(request(payload(bolt11, amount_tlv=a), phash(h), 5, 100, 50, 1, forward=fwd, total=None, scid=scid))
+    # metadata records NOT in ascending type order (the stream is sender-controlled and the parser does not enforce an order):
+    # the amount record before the invoice, other records around them
+    b11 = bolt11.encode()
+    for a in (tu64(1000000), tu64(2000000), tu64(999999), b""):
+        reqs.append(request(payload(raw_meta=tlv([(33003, a), (33001, b11)])), phash(inv_pre), 5, 100, 50, 1, forward=5))
+        reqs.append(request(payload(raw_meta=tlv([(65537, b"zz"), (33003, a), (33001, b11), (1, b"a")])), phash(inv_pre), 5, 100, 50, 1, forward=5))
+        reqs.append(request(payload(raw_meta=tlv([(33001, b11), (7, b"x"), (33003, a)])), phash(inv_pre), 5, 100, 50, 1, forward=5))
     # HTLC hashes that differ from the invoice's hash but would pass a weak comparison
     for nh in near_hashes(phash(inv_pre)):
         reqs.append(request(payload(bolt11, amount_tlv=None), nh, 5, 100, 50, 1, forward=5, total=None, scid=None))
@@ -81,7 +88,7 @@ def gen(tier, seed, binary):
             cfg = {"local": 0, "allow_self": allow, "policy": [1, 2, 3]}
             rq = requests_for(r, inv["bolt11"], tier, d["pre"])
             if tier != "thorough" and allow and d.get("hints"):
-                rq = rq[:4] + rq[-3:]
+                rq = rq[:4] + rq[-15:]
             for q in rq:
                 cases.append({"cfg": cfg, "req": q, "inv": inv, "desc": d})
     good = invs[0]
@@ -114,7 +121,7 @@ def run_classify(prop, tier, seed, extra=None):
     o = Outcome(prop, tier, seed)
     num = int(prop[1:])
     o.rule = ("cross product {invoice amount present/absent} x {signature valid / corrupted / explicit payee not matching the signature / explicit payee matching} x "
-              "{7 route-hint shapes with the local node as last / middle / absent hop} x {invoice hash equal / different from the HTLC's / near misses (bit flips that cancel under XOR, exchanged bytes, reversed, rotated, complement)} x {amount field absent, 0-9 bytes, agreeing, off by one} x "
+              "{7 route-hint shapes with the local node as last / middle / absent hop} x {invoice hash equal / different from the HTLC's / near misses (bit flips that cancel under XOR, exchanged bytes, reversed, rotated, complement)} x {amount field absent, 0-9 bytes, agreeing, off by one; records of the metadata in and out of ascending type order} x "
               "{self-route-hint flag} x {forward_msat / short_channel_id present or not}, all invoices built and parsed with the plugin's own lightning-invoice crate, plus malformed payload / "
               "metadata byte strings. Non-trivial: the model classifies the request as trampoline, fail, or continue-with-rewrite (shape 2-4); distinct = distinct (invoice, request, flag)")
     o.assumptions = ["BOLT11 parsing, signature check and key recovery are the oracle (lightning-invoice 0.31 / secp256k1 0.27, trusted)",
